@@ -571,3 +571,19 @@ func scriptKey(s []int) string {
 	}
 	return sb.String()
 }
+
+// patFacts adds what is known about a match predicate for the pattern shapes the harnesses
+// use ("^c": the string starts with the one-byte rune c).
+func (e *Explorer) patFacts(pat string, s sym) {
+	if s.k != sStr || len(pat) != 2 || pat[0] != '^' {
+		return
+	}
+	key := "patfact:" + pat + ":" + s.t
+	if e.declared[key] {
+		return
+	}
+	e.declared[key] = true
+	m := "(" + internPat(pat) + " " + s.t + ")"
+	e.PC = append(e.PC, "(=> "+m+" (and (bvuge (rlen "+s.t+") #x0000000000000001) (bvule (bvsub (blen "+s.t+") #x0000000000000001) (bvmul #x0000000000000004 (bvsub (rlen "+s.t+") #x0000000000000001)))))")
+	e.addEval(m)
+}
